@@ -162,7 +162,11 @@ def gen_monetary(ctx, asset, n, atomic=False):
         if ctx.rng.random() < 0.5:
             return "%s + %s" % (gen_monetary(ctx, asset, n - a), gen_monetary(ctx, asset, a, True))
         return "%s - %s" % (gen_monetary(ctx, asset, n + a), gen_monetary(ctx, asset, a, True))
-    return "[%s %s]" % (gen_asset_text(ctx, asset), gen_number_text(ctx, n))
+    at, nt = gen_asset_text(ctx, asset), gen_number_text(ctx, n)
+    if at.startswith("$") and nt.startswith("$") and ctx.rng.random() < 0.3:
+        ctx.features.add("adjacent-variables")
+        return "[%s%s]" % (at, nt)          # two variable tokens with nothing between them
+    return "[%s %s]" % (at, nt)
 
 
 def portion_literal_text(ctx, q):
@@ -409,7 +413,7 @@ def gen_statement(ctx):
     if r.random() < 0.5:
         ctx.features.add("set_tx_meta")
         return 'set_tx_meta("%s", %s)' % (key, vt), ('txmeta', key, (v[0], render_value(v)))
-    at, name = gen_account(ctx, ACCOUNTS)
+    at, name = gen_account(ctx, ACCOUNTS + ["world"])       # @world has metadata like any account
     ctx.features.add("set_account_meta")
     return 'set_account_meta(%s, "%s", %s)' % (at, key, vt), ('accmeta', name, key, render_value(v))
 
@@ -673,6 +677,9 @@ def rename_lookalike(case, gen):
     """the same case under names whose concatenations coincide: (v, USD), (vU, SD) and (vUS, D) all spell `vUSD`"""
     import re
     am, sm = LOOKALIKE_ACCOUNTS, LOOKALIKE_ASSETS
+    if len(case["script"]) % 2:
+        # second family: segments shifted by one — (u, v:w) and (u:v, w) both read `u:v:w` once joined with a colon
+        am = {"a": "u", "b": "u:v", "c": "v:w", "d": "w", "x": "x"}
 
     def txt(t):
         t = re.sub(r"@(a|b|c|d|x)(?![a-zA-Z0-9_:-])", lambda m: "@" + am[m.group(1)], t)
